@@ -66,6 +66,9 @@ PwIntOK(e) ==
     IN
     /\ e.rends = e.ends /\ e.iends = e.ends                       \* same breakpoints, bit for bit
     /\ Len(e.res) = n /\ Len(e.ind) = n
+    \* in-scope inputs (every term of every antiderivative within range at the knot and at the breakpoints) give finite
+    \* results: a NaN or an infinity here is a wrong answer, not a reason to look away
+    /\ \A j \in 1..n : Finite(e.res[j]) /\ Finite(e.ind[j])
     /\ e.itereq                                                    \* by-value = by-reference = integral()
     \* each piece is an antiderivative of the corresponding piece of f
     /\ \A j \in 1..n : LanesOK(log, Pc[j], e.res[j]) /\ LanesOK(log, Pc[j], e.ind[j])
@@ -102,8 +105,6 @@ PwIntOK(e) ==
 InScope(e) ==
     /\ Finite(e.ends) /\ IsFinite(e.kx) /\ IsFinite(e.ky) /\ Finite(e.ts)
     /\ \A j \in 1..Len(e.pieces) : Finite(e.pieces[j])
-    /\ \A j \in 1..Len(e.res) : Finite(e.res[j])
-    /\ \A j \in 1..Len(e.ind) : Finite(e.ind[j])
     /\ e.kind = "log" => (~SignBit(e.kx) /\ ~IsZero(e.kx) /\ \A j \in 1..Len(e.ends) : ~SignBit(e.ends[j]) /\ ~IsZero(e.ends[j]))
     /\ P!WellFormed(e.ends)
     \* no term of any piece's antiderivative underflows or overflows at the knot or at a breakpoint
@@ -122,9 +123,14 @@ InScope(e) ==
 TracePwInt ==
     /\ IsEvent("pwint")
     /\ LET e == Rec[l] IN
-       IF ~InScope(e) THEN TRUE
-       ELSE /\ Tally(11, TRUE) /\ Tally(12, P!SelectScan(e.ends, e.kx) = 1) /\ Tally(13, Len(e.ends) >= 2) /\ Tally(14, e.kind = "log")
-            /\ Judge(PwIntOK(e), "piecewise integral")
+       \* whatever the breakpoints (huge, +infinity as the open right end): indefinite() gives the first piece the
+       \* additive constant zero -- a literal, no arithmetic -- and neither call changes the breakpoints
+       /\ Judge((Len(e.pieces) >= 1 /\ Finite(e.pieces[1]) /\ Len(e.ind) >= 1)
+                    => (e.ind[1][1] = PosZero /\ e.iends = e.ends /\ e.rends = e.ends),
+                "indefinite: first constant not zero, or breakpoints changed")
+       /\ IF ~InScope(e) THEN TRUE
+          ELSE /\ Tally(11, TRUE) /\ Tally(12, P!SelectScan(e.ends, e.kx) = 1) /\ Tally(13, Len(e.ends) >= 2) /\ Tally(14, e.kind = "log")
+               /\ Judge(PwIntOK(e), "piecewise integral")
 
 TraceNext == TracePwInt
 =============================================================================
